@@ -278,18 +278,9 @@ def _run_instrumented(desc):
 
 
 def forget_synthetic_classes():
-    """frames_gen registers fresh item classes with unwrap_stackitem for every case and never removes
-    them; functools.singledispatch then scans the whole registry on each cache miss, which makes long
-    runs quadratic.  Harness hygiene only: drop the registrations of classes made by frames_gen."""
-    import gc
-    from stackscope import unwrap_stackitem
-    for ref in gc.get_referents(unwrap_stackitem.registry):
-        if isinstance(ref, dict):
-            dead = [k for k in ref if getattr(k, "__module__", "") == G.__name__ and k.__name__.startswith("Obj")]
-            for k in dead:
-                del ref[k]
-            if dead:
-                unwrap_stackitem._clear_cache()
+    """no-op: frames_gen now pools its synthetic item classes (registered once), so nothing accumulates
+    in the singledispatch registry any more"""
+    return None
 
 
 def run_case(desc):
@@ -322,7 +313,7 @@ def coq_case(desc, obs):
         out = "(Raised (EFault 0))"
     else:
         out = f"(Ok {G.c_stack(obs)})"
-    return f"({G.c_cfg(desc, guards='src_guards', uguard='src_uguard')}, {G.c_item(desc['root'])}, {out})"
+    return f"({G.c_cfg(desc, guards='src_guards')}, {G.c_item(desc['root'])}, {out})"
 
 
 def direct_oracle(desc, obs):
